@@ -184,7 +184,9 @@ enum
 	O_SET_SERIALIZER,
 	O_DEEP_COPY,
 	O_PTR_SET,
-	O_PATCH
+	O_PATCH,
+	O_BORROW, /* take an extra reference to a node reached through its parent (object_get / array_get_idx + get) */
+	O_SHRINK
 };
 /* op = kind<<10 | p<<8 | c<<6 | x   (c == 3 means "NULL value") */
 #define OP(kind, p, c, x) (((kind) << 10) | ((p) << 8) | ((c) << 6) | (x))
@@ -204,7 +206,7 @@ static const char *patches[] = {
 static void opname(int op, sb_t *o)
 {
 	static const char *kn[] = {"new", "get", "put", "object_add", "object_add(self)", "object_del", "array_add", "array_put_idx", "array_insert_idx", "array_del_idx",
-	                           "set_userdata", "set_serializer", "deep_copy", "pointer_set", "patch_apply"};
+	                           "set_userdata", "set_serializer", "deep_copy", "pointer_set", "patch_apply", "borrow", "shrink"};
 	int k = OPK(op), p = OPP(op), c = OPC(op), x = OPX(op);
 	switch (k)
 	{
@@ -218,6 +220,13 @@ static void opname(int op, sb_t *o)
 	case O_DEEP_COPY: sb_printf(o, "s%d=deep_copy(s%d)", c, p); break;
 	case O_PTR_SET: sb_printf(o, "pointer_set(&s%d,\"%s\",s%d)", p, ptr_paths[x], c); break;
 	case O_PATCH: sb_printf(o, "patch_apply(s%d,%s)", p, patches[x]); break;
+	case O_BORROW:
+		if (x < 2)
+			sb_printf(o, "s%d=get(object_get(s%d,\"%c\"))", c, p, 'a' + x);
+		else
+			sb_printf(o, "s%d=get(array_get_idx(s%d,%d))", c, p, x - 2);
+		break;
+	case O_SHRINK: sb_printf(o, "array_shrink(s%d,%d)", p, x); break;
 	default: sb_printf(o, "%s(s%d)", kn[k], p); break;
 	}
 }
@@ -641,6 +650,43 @@ static void apply(void *vs, int op, int check)
 		}
 		break;
 	}
+	case O_BORROW:
+	{
+		struct mnode *m = &s->n[pid];
+		int child;
+		struct json_object *rchild;
+		if (x < 2)
+		{
+			char ks[2] = {(char)('a' + x), 0};
+			int ki = find_key(m, ks[0]);
+			child = ki >= 0 ? m->kchild[ki] : 0;
+			rchild = json_object_object_get(rp, ks);
+		}
+		else
+		{
+			child = (x - 2) < m->nel ? m->el[x - 2] : 0;
+			rchild = json_object_array_get_idx(rp, (size_t)(x - 2));
+		}
+		if (check && child > 0 && rchild != s->real[child])
+		{
+			fail(s, "child-lookup-differs", "%s: the node found through the parent is %p, the model's child is %p", what, (void *)rchild, (void *)s->real[child]);
+			return;
+		}
+		if (child > 0)
+		{
+			json_object_get(rchild);
+			s->slot_node[c] = child;
+			s->slot_refs[c] = 1;
+		}
+		break;
+	}
+	case O_SHRINK:
+	{
+		int rc = json_object_array_shrink(rp, x);
+		if (check && rc != 0)
+			fail(s, "shrink-failed", "%s returned %d", what, rc);
+		break;
+	}
 	case O_PATCH:
 	{
 		struct json_object *patch = json_tokener_parse(patches[x]);
@@ -788,9 +834,28 @@ static int menu(void *vs, int *ops, int cap)
 			}
 		}
 		if (m->kind == MK_ARR)
+		{
 			for (int i = 0; i < 3; i++)
 				for (int cnt = 1; cnt <= 2; cnt++)
 					ops[n++] = OP(O_ARR_DEL, p, 0, (i << 2) | cnt);
+			if (!small)
+				ops[n++] = OP(O_SHRINK, p, 0, 0);
+		}
+		/* extra reference to a child reached through the parent */
+		if (fs >= 0)
+		{
+			if (m->kind == MK_OBJ)
+				for (int kk = 0; kk < 2; kk++)
+				{
+					int ki = find_key(m, (char)('a' + kk));
+					if (ki >= 0 && m->kchild[ki] > 0)
+						ops[n++] = OP(O_BORROW, p, fs, kk);
+				}
+			else if (m->kind == MK_ARR)
+				for (int i = 0; i < 2 && i < m->nel; i++)
+					if (m->el[i] > 0)
+						ops[n++] = OP(O_BORROW, p, fs, 2 + i);
+		}
 		if (!small)
 		{
 			for (int c = 0; c < NSLOT; c++)
@@ -977,7 +1042,7 @@ static void describe(sb_t *o)
 static void enumerate(void)
 {
 	struct bfs_stats st;
-	bfs_run(&cb, (int)mc_opt_int("depth", mc_tier ? 7 : 5), mc_tier ? 3000000 : 800000, &st);
+	bfs_run(&cb, (int)mc_opt_int("depth", mc_tier ? 7 : 6), mc_tier ? 3000000 : 1500000, &st);
 	MC_COUNT("states", st.states);
 	MC_COUNT("transitions", st.transitions);
 	MC_MAX("depth_completed", st.max_depth_done);
